@@ -9,9 +9,56 @@ RULE = ("stories = hand-picked same-turn/close-window scenarios + (thorough) eve
         "within a story of at least 8 labelled callbacks; distinct by label sequence")
 
 
+def socket_fault_probe(fault, then):
+    """The TCP connect succeeds, the first use of the socket fails (peer gone): start_connection() fails - and the socket the
+    connect returned must be closed by the time the connection is closed. Returns (outcome, state, sockets closed?)."""
+    import asyncio
+    from vlib import conntrace, simnet
+
+    async def go(loop):
+        from aioesphomeapi.connection import APIConnection, ConnectionParams, ConnectionState as S
+        from aioesphomeapi.zeroconf import ZeroconfManager
+        net = simnet.Net(loop)
+        net.socket_fault = fault
+        params = ConnectionParams(addresses=["10.0.0.1"], port=6053, password=None, client_info="v", keepalive=20.0,
+                                  zeroconf_manager=ZeroconfManager(), noise_psk=None, expected_name=None)
+        conn = APIConnection(params, lambda e: None, False, None)
+        with net.patched():
+            try:
+                await conn.start_connection()
+                out = "ok"
+            except Exception as e:  # noqa: BLE001
+                out = conntrace.exc_name(e)
+            if then == "force":
+                conn.force_disconnect()
+            await simnet.drain(loop)
+        return out, conn.connection_state is S.CLOSED, [s.closed for s in net.sockets]
+    return simnet.run(go)
+
+
 def run(rep, tier, seed):
     connfamily.run(rep, tier, seed, "C08", VFILE, RULE)
+    for fault in ("nodelay", "peername"):
+        for then in ("nothing", "force"):
+            out, closed, socks = socket_fault_probe(fault, then)
+            rep.case(("socket-fault", fault, then), True, sample={"socket_fault": fault, "then": then, "outcome": out, "sockets_closed": socks})
+            rep.bump("probe:socket-fault")
+            replay = {"kind": "socket-fault", "fault": fault, "then": then}
+            if not out.startswith("L."):
+                rep.violation("C08/socket-fault-outcome", f"first use of the connected socket fails ({fault}): start_connection() ended with {out}", replay)
+            elif not closed:
+                rep.violation("C08/not-closed", f"first use of the connected socket fails ({fault}): start_connection() failed but the connection is not CLOSED", replay)
+            elif not socks or not all(socks):
+                rep.violation("C08/socket-open", f"first use of the connected socket fails ({fault}), then {then}: the connection is CLOSED but the socket returned by the "
+                              f"TCP connect was never closed ({socks})", replay)
 
 
 def replay(path):
+    import json
+    d = json.loads(open(path).read())["replay"]
+    if d.get("kind") == "socket-fault":
+        from vlib import common
+        common.setup_impl_path()
+        print(socket_fault_probe(d["fault"], d["then"]))
+        return 0
     return connfamily.replay(path, "C08")
